@@ -167,7 +167,7 @@ func body(c *kernel.Ctx) {
 	o := &oracle{c: c, cl: cl, roots: map[string][32]byte{}, first: map[string]cluster.Broadcast{}, firstSlot: firstSlot, nSlots: nSlots, views: views}
 	runSyncMsgs = syncMsgs
 	cl.OnBcast = o.onBroadcast
-	installRealBcast(c, cl, pl, firstSlot, nSlots, beaconErrs)
+	installRealBcast(c, cl, pl, firstSlot, nSlots, beaconErrs, isByz)
 
 	// ---- nodes: start (some late), trigger duties, run validator clients -------------------
 	var wg sync.WaitGroup
